@@ -165,6 +165,8 @@ def run_level(ctx, stop_first=False):
     # runs CONTINUED from a seed solution (computed in the reference gauge) in each gauge, the potentials being closures
     # made by one factory (same code, same keyword arguments, another captured offset)
     cfgs.append(dict(dev="bar", cur={"source": 3.0, "drain": -3.0}, B=0.4, closure=True, seeded=True, opts=dict(dt_init=5e-3, adaptive=False)))
+    # ... and with a time-dependent potential (what the seed recorded as "the applied potential" belongs to the seed's gauge)
+    cfgs.append(dict(dev="bar", cur={"source": 2.0, "drain": -2.0}, B=0.5, td=True, seeded=True, opts=dict(dt_init=5e-3, adaptive=False)))
     if not ctx.quick:
         cfgs.append(dict(dev="bar3", cur={"source": 3.0, "drain": -1.0, "top": -2.0}, B=0.5, td=True, opts=dict(dt_init=5e-3, adaptive=False)))
         cfgs.append(dict(dev="bar", cur={"source": 2.0, "drain": -2.0}, B=0.4, lam=0.5, opts=dict(dt_init=5e-3, adaptive=False, terminal_psi=None, include_screening=True, screening_tolerance=1e-3)))
